@@ -459,6 +459,7 @@ def run(ck, prog, ctx):
         reds = [(bi, t) for bi, t in sf.calls() if t.callee.trait == "std::iter::Iterator" and t.callee.method in ("fold", "sum", "reduce", "try_fold")]
         for bi, t in reds:
             chain = []
+            via_helper = []
             cur = t.args[0]
             seen_l = set()
             while cur is not None and cur.place is not None and cur.place.local not in seen_l:
@@ -468,6 +469,8 @@ def run(ck, prog, ctx):
                 for kind, pos, d in ds:
                     if kind == "call":
                         chain.append(d.callee.method)
+                        if d.callee.res in prog.bodies and prog.bodies[d.callee.res].kind in ("Fn", "AssocFn"):
+                            via_helper.append(prog.bodies[d.callee.res])
                         nxt = d.args[0] if d.args else None
                     elif d.rv["k"] == "use":
                         nxt = d.rv["op"]
@@ -480,6 +483,12 @@ def run(ck, prog, ctx):
                                 nxt = dd.args[0] if dd.args else None
                 cur = nxt
             bad = [m for m in chain if m in TRUNC]
+            if bad == ["skip"] and via_helper and not agg:
+                # `self.pmf().skip(n).sum()`: the terms come from a helper that walks the whole support; the lower end of the tail is expressed
+                # as the NUMBER of leading terms to drop (x - min + 1), not as a range.  Whether that number is right is arithmetic over the
+                # support's start, which this rule does not evaluate
+                ck.undecided("TABLE", "sf/all-terms", "the tail sum drops leading terms of %s with skip(n): the tail's lower end is a count relative to the start of the support, not evaluated" % via_helper[0].short, where=sf.where(t.line))
+                continue
             ck.ob("TABLE", "sf/all-terms", not bad, "the tail sum reduces %s" % ("every element of the range (adaptors: %s)" % (chain or ["none"]) if not bad else "a TRUNCATED range (%s): terms of the tail are dropped" % ", ".join(bad)), where=sf.where(t.line))
 
         def item_param(cb):
